@@ -1482,7 +1482,7 @@ theorem vis_of_idLe_vs {n : Nat} {a o : Obj} (hle : idLe a o = true) (hv : vis n
       omega
 
 theorem pruneList_get_vis_vs (n : Nat) : ∀ (l : List Obj) (i : Nat) (o : Obj), levelOk l = true →
-    l[i]? = some o → vis n o = true → (pruneList n l)[i]? = some (pruneObj n o) := by
+    l[i]? = some o → vis n o = true → (pruneBeforeList n l)[i]? = some (pruneBeforeObj n o) := by
   intro l
   induction l with
   | nil => intro i o _ h; simp at h
@@ -1493,18 +1493,18 @@ theorem pruneList_get_vis_vs (n : Nat) : ∀ (l : List Obj) (i : Nat) (o : Obj),
     cases i with
     | zero =>
       simp at hi; subst hi
-      simp [pruneList, hv]
+      simp [pruneBeforeList, hv]
     | succ j =>
       have hj : r[j]? = some o := by simpa using hi
       have hmem := getElem_mem_vs hj
       rw [List.all_eq_true] at hall
       have hva : vis n a = true :=
         vis_of_idLe_vs (hall o hmem) hv (levelOk_mem_vs r o hr hmem).1
-      simp only [pruneList, hva, ↓reduceIte, List.getElem?_cons_succ]
+      simp only [pruneBeforeList, hva, ↓reduceIte, List.getElem?_cons_succ]
       exact ih j o hr hj hv
 
 theorem pruneList_len_invis_vs (n : Nat) : ∀ (l : List Obj) (i : Nat) (o : Obj),
-    l[i]? = some o → vis n o = false → (pruneList n l).length ≤ i := by
+    l[i]? = some o → vis n o = false → (pruneBeforeList n l).length ≤ i := by
   intro l
   induction l with
   | nil => intro i o h; simp at h
@@ -1514,13 +1514,13 @@ theorem pruneList_len_invis_vs (n : Nat) : ∀ (l : List Obj) (i : Nat) (o : Obj
     · cases i with
       | zero => simp at hi; subst hi; rw [hv] at hva; cases hva
       | succ j =>
-        simp only [pruneList, hva, ↓reduceIte, List.length_cons]
+        simp only [pruneBeforeList, hva, ↓reduceIte, List.length_cons]
         have := ih j o (by simpa using hi) hv
         omega
-    · simp [pruneList, hva]
+    · simp [pruneBeforeList, hva]
 
 theorem pruneList_nil_of_le_vs (n : Nat) (s : Obj) (kids : List Obj) (hs : vis n s = false)
-    (hsid : s.meta.id.isSome = true) (hall : kids.all (idLe s) = true) : pruneList n kids = [] := by
+    (hsid : s.meta.id.isSome = true) (hall : kids.all (idLe s) = true) : pruneBeforeList n kids = [] := by
   cases kids with
   | nil => rfl
   | cons a r =>
@@ -1537,14 +1537,14 @@ theorem pruneList_nil_of_le_vs (n : Nat) (s : Obj) (kids : List Obj) (hs : vis n
           | some j => rfl
         rw [vis_of_idLe_vs hle hv hida] at hs
         cases hs
-    simp [pruneList, this]
+    simp [pruneBeforeList, this]
 
 /-- the same scope position in two documents that agree after pruning: the scopes' objects agree
     after pruning -/
 theorem prune_kids_agree_vs (n : Nat) (objs1 objs2 : List Obj) (h1 : Numbered objs1)
-    (h2 : Numbered objs2) (hp : pruneList n objs1 = pruneList n objs2) (i : Nat) (m1 m2 : Meta)
+    (h2 : Numbered objs2) (hp : pruneBeforeList n objs1 = pruneBeforeList n objs2) (i : Nat) (m1 m2 : Meta)
     (k1 k2 : List Obj) (hi1 : objs1[i]? = some (.scope m1 k1)) (hi2 : objs2[i]? = some (.scope m2 k2)) :
-    pruneList n k1 = pruneList n k2 := by
+    pruneBeforeList n k1 = pruneBeforeList n k2 := by
   have hmem1 := getElem_mem_vs hi1
   have hmem2 := getElem_mem_vs hi2
   by_cases hv1 : vis n (.scope m1 k1) = true
@@ -1553,11 +1553,11 @@ theorem prune_kids_agree_vs (n : Nat) (objs1 objs2 : List Obj) (h1 : Numbered ob
     by_cases hv2 : vis n (.scope m2 k2) = true
     · have g2 := pruneList_get_vis_vs n objs2 i _ h2.1 hi2 hv2
       rw [g1] at g2
-      simp only [pruneObj, Option.some.injEq, Obj.scope.injEq] at g2
+      simp only [pruneBeforeObj, Option.some.injEq, Obj.scope.injEq] at g2
       exact g2.2
     · have := pruneList_len_invis_vs n objs2 i _ hi2 (by simpa using hv2)
-      have hlt : i < (pruneList n objs2).length := by
-        rcases Nat.lt_or_ge i (pruneList n objs2).length with h | h
+      have hlt : i < (pruneBeforeList n objs2).length := by
+        rcases Nat.lt_or_ge i (pruneBeforeList n objs2).length with h | h
         · exact h
         · rw [List.getElem?_eq_none h] at g1; cases g1
       omega
@@ -1569,8 +1569,8 @@ theorem prune_kids_agree_vs (n : Nat) (objs1 objs2 : List Obj) (h1 : Numbered ob
       | false => rfl
       | true =>
         have g2 := pruneList_get_vis_vs n objs2 i _ h2.1 hi2 hv
-        have hlt : i < (pruneList n objs2).length := by
-          rcases Nat.lt_or_ge i (pruneList n objs2).length with h | h
+        have hlt : i < (pruneBeforeList n objs2).length := by
+          rcases Nat.lt_or_ge i (pruneBeforeList n objs2).length with h | h
           · exact h
           · rw [List.getElem?_eq_none h] at g2; cases g2
         omega
@@ -1581,10 +1581,10 @@ theorem prune_kids_agree_vs (n : Nat) (objs1 objs2 : List Obj) (h1 : Numbered ob
 
 theorem prune_chain_agree_vs (n : Nat) : ∀ (pos : List Nat) (objs1 objs2 : List Obj)
     (outer1 outer2 : Chain) (d1 d2 : Obj) (c1 c2 : Chain), Numbered objs1 → Numbered objs2 →
-    pruneList n objs1 = pruneList n objs2 →
-    outer1.map (pruneList n) = outer2.map (pruneList n) →
+    pruneBeforeList n objs1 = pruneBeforeList n objs2 →
+    outer1.map (pruneBeforeList n) = outer2.map (pruneBeforeList n) →
     chainAt objs1 pos outer1 = some (d1, c1) → chainAt objs2 pos outer2 = some (d2, c2) →
-    c1.map (pruneList n) = c2.map (pruneList n) := by
+    c1.map (pruneBeforeList n) = c2.map (pruneBeforeList n) := by
   intro pos
   induction pos with
   | nil => intro objs1 objs2 outer1 outer2 d1 d2 c1 c2 _ _ _ _ h; cases objs1 <;> simp [chainAt] at h
@@ -1623,7 +1623,7 @@ theorem later_irrelevant_vs (env : Env) (root1 root2 : List Obj) (hd1 : DocIds r
     (hd2 : DocIds root2) (pos : List Nat) (diff : Bool) (m1 m2 : Meta) (ws : List Word) (n : Nat)
     (h1 : objAt root1 pos = some (.defn m1 ws)) (h2 : objAt root2 pos = some (.defn m2 ws))
     (hid1 : m1.id = some n) (hid2 : m2.id = some n)
-    (hp : pruneList n root1 = pruneList n root2) :
+    (hp : pruneBeforeList n root1 = pruneBeforeList n root2) :
     denote env root1 pos diff = denote env root2 pos diff := by
   obtain ⟨c1, hc1, e1⟩ := resolveAt_defn_vs env root1 hd1 pos diff m1 ws n h1 hid1
   obtain ⟨c2, hc2, e2⟩ := resolveAt_defn_vs env root2 hd2 pos diff m2 ws n h2 hid2
